@@ -5,7 +5,8 @@ non-DML statement, CASE without WHEN, set operations over select lists of differ
 calls"), shapes of slots from the code.  Evaluated by the same symbolic executor as the code (names resolve in
 pypika_tortoise.queries / the module given in RAISES)."""
 
-# (function short name, exception, spec function, module whose globals the spec sees)
+# (function short name, exception, spec function, module whose globals the spec sees[, message fragment that
+# identifies the guard when the function can raise the same exception class for another reason])
 RAISES = [
     ("terms.Case.get_sql", "CaseException", "Case__get_sql", "pypika_tortoise.terms"),
     ("queries.QueryBuilder.on_conflict", "QueryException", "QB__on_conflict", "pypika_tortoise.queries"),
@@ -31,17 +32,26 @@ RAISES = [
     ("queries.DropQueryBuilder.drop_table", "AttributeError", "Drop__drop_table", "pypika_tortoise.queries"),
     ("terms.WindowFrameAnalyticFunction.rows", "AttributeError", "Window__frame", "pypika_tortoise.terms"),
     ("terms.WindowFrameAnalyticFunction.range", "AttributeError", "Window__frame", "pypika_tortoise.terms"),
-    ("queries.Joiner.on", "JoinException", "Joiner__on", "pypika_tortoise.queries"),
-    ("queries.Joiner.on_field", "JoinException", "Joiner__nofields", "pypika_tortoise.queries"),
-    ("queries.Joiner.using", "JoinException", "Joiner__nofields", "pypika_tortoise.queries"),
+    ("queries.Joiner.on", "JoinException", "Joiner__on", "pypika_tortoise.queries", "Parameter '"),
+    ("queries.Joiner.on_field", "JoinException", "Joiner__nofields", "pypika_tortoise.queries", "Parameter '"),
+    ("queries.Joiner.using", "JoinException", "Joiner__nofields", "pypika_tortoise.queries", "Parameter '"),
     ("dialects.postgresql.PostgreSQLQueryBuilder._return_field_str", "QueryException", "PG__return_field_str",
-     "pypika_tortoise.dialects.postgresql"),
+     "pypika_tortoise.dialects.postgresql", "can't be used"),
 ]
 
 # exceptions a callee under its own contract may propagate: (function, exception) -> why it is not decided here
 DELEGATED = {
     ("queries.Joiner.on", "JoinException"): "JoinOn.validate (join/validate obligations)",
     ("queries.Joiner.on_field", "JoinException"): "JoinOn.validate (join/validate obligations)",
+    ("queries.Joiner.using", "JoinException"): "JoinOn.validate (join/validate obligations)",
+    ("dialects.postgresql.PostgreSQLQueryBuilder._return_field_str", "QueryException"):
+        "_validate_returning_term (foreign table), not decided by an iff",
+}
+
+# parameter preconditions of the functions under contract where the guard concerns an argument the general
+# parameter table types more narrowly
+OVERRIDES = {
+    "queries.Joiner.on": {"criterion": "Criterion|None"},
 }
 
 
